@@ -145,7 +145,7 @@ def run_history(ctx, H, tag):
         G.dataset(did)
     ctx.count("histories")
     ctx.count("reregistrations", H.get("reregistrations", 0))
-    seen_values = {}  # (did, dispatch values, derived?) -> set of canon values returned with caching on
+    seen_values = {}  # did -> [(options of that evaluation, canon value returned with caching on)]
     evaluated_before = False
     late = False
     W = {"history": H, "source": tag}
@@ -231,7 +231,7 @@ def run_history(ctx, H, tag):
                     d_id = str(G.dataset_ids.get(id(request.evaluatable), "")).split("/")[0]
                     if d_id in program["datasets"]:
                         try:
-                            fresh_entries.append((dkey(d_id, dict(request.options)), repr(canon(result))))
+                            fresh_entries.append(((d_id, copy.deepcopy(dict(request.options))), repr(canon(result))))
                         except RecursionError:
                             pass
 
@@ -247,27 +247,35 @@ def run_history(ctx, H, tag):
             with Tap(types=[EvaluateRequest, CacheGetRequest], on_event=on_event2, keep=False):
                 got = observe(obj.evaluate, copy.deepcopy(o))
             for k2, v2 in fresh_entries:
-                seen_values.setdefault(k2, set()).add(v2) if False else None
+                pass
             if inner_hits:
                 # the result embeds a value another dataset had already stored (possibly before a later
                 # registration on it): by the statement that value stays; the exact comparison is the uncached one
                 ctx.count("cached_evaluations_with_inner_hits_not_compared")
                 for k2, v2 in fresh_entries:
-                    seen_values.setdefault(k2, set()).add(v2)
+                    seen_values.setdefault(k2[0], []).append((k2[1], v2))
                 evaluated_before = True
                 continue
             ctx.count("cached_evaluations_checked")
             # "already stored": a value produced earlier for the same (effective) dispatch value of this dataset
             # (derivatives share the dataset's cache)
             key = dkey(did, o)
-            allowed = seen_values.setdefault(key, set())
+            # (which dispatch value an earlier entry belongs to is decided with the dispatch expression the dataset has
+            #  NOW: a value stored before set_dispatch under options that give today's dispatch value is "already stored")
+            allowed = set()
+            for opts_then, v_then in seen_values.get(did, []):
+                try:
+                    if dkey(did, opts_then) == key:
+                        allowed.add(v_then)
+                except RecursionError:
+                    pass
             ok = (got[0] == exp[0] and (got[0] == "err" or got[1] == exp[1])) or (got[0] == "ok" and repr(got[1]) in allowed)
             if not ok:
                 ctx.violation("wrong-implementation-cached", f"step {i}: dataset {did} under {short(o)} gives {short(got)}; the table now selects {short(exp)} and "
                               f"no value was stored earlier for these dispatch values", Wi)
                 return
             for k2, v2 in fresh_entries:
-                seen_values.setdefault(k2, set()).add(v2)
+                seen_values.setdefault(k2[0], []).append((k2[1], v2))
         evaluated_before = True
         if exp[0] == "ok" and ref.selected and any(t != "default" for d_, t in ref.selected if d_ == did):
             ctx.count("selected_registered_impl")
